@@ -147,10 +147,15 @@ class XmlData(XmlModifier):
             if issubclass(cls.type, AnyXml):
                 parent_elt.append(value)
             else:
+                # lxml takes byte strings only when they are pure ascii
+                text = prot.to_bytes(cls.type, value)
+                if isinstance(text, six.binary_type):
+                    text = text.decode('utf8')
+
                 if len(parent_elt) == 0:
-                    parent_elt.text = prot.to_bytes(cls.type, value)
+                    parent_elt.text = text
                 else:
-                    parent_elt[-1].tail = prot.to_bytes(cls.type, value)
+                    parent_elt[-1].tail = text
 
     @classmethod
     def get_type_name(cls):
